@@ -11,7 +11,7 @@ import subprocess
 
 from bvmon import harness
 
-STATUSES = ["clean", " M", "M ", "MM", "A ", "AM", " D", "D ", "R ", "R>", "RM", "RM>", "RD>", "??"]
+STATUSES = ["clean", " M", "M ", "MM", "A ", "AM", " D", "D ", "R ", "R>", "RM", "RM>", "RD>", "DR>", "??"]
 # only for the unrelated role: a git submodule whose pointer moved (unstaged / staged)
 SUB_STATUSES = ["sub: M", "sub:M "]
 ROLES = ["pattern", "unrelated"]
@@ -29,7 +29,7 @@ SPEC = dict(
                  "committed by `git commit` by design and are not asserted",
                  "a run is expected to proceed only when no pattern file is dirty (and the tree is clean or "
                  "--allow-dirty is given)"],
-    required=["submodule_cases", "untracked_pattern_file_in_untracked_directory", "quoted_names_in_porcelain_output", "dot_git_is_a_file_cases", "hg_status_cases", "aborts_checked", "proceeds_checked", "pattern_file_dirty_with_allow_dirty", "untracked_unrelated_not_blocking",
+    required=["submodule_cases", "untracked_pattern_file_in_untracked_directory", "quoted_names_in_porcelain_output", "dot_git_is_a_file_cases", "hg_status_cases", "hg_names_with_edge_blanks_or_quotes", "aborts_checked", "proceeds_checked", "pattern_file_dirty_with_allow_dirty", "untracked_unrelated_not_blocking",
               "bump_commit_content_checked"],
     anchors=[("vcs", "assert_not_dirty"), ("cli", "_update")],
     exhaustive={"quick": True, "thorough": True},
@@ -69,6 +69,11 @@ LAYOUTS = [
     # to the literal path - spelled non-canonically it is still the same file
     {"pfile": "pages/[id].tsx", "cfg_spelling": "./pages/[id].tsx", "ufile": "pages/index.tsx", "vp": "MAJOR.MINOR.PATCH",
      "cur": "1.2.3", "args": ["--patch"]},
+    # core.quotePath=false and a Unicode blank at the edge of a name: git prints the name raw and unquoted
+    {"pfile": "notes.txt\u00a0", "ufile": "\u3000other.txt", "vp": "MAJOR.MINOR.PATCH", "cur": "1.2.3", "args": ["--patch"],
+     "git_config": [("core.quotePath", "false")]},
+    {"pfile": "README.md", "ufile": "README.md\u00a0", "vp": "MAJOR.MINOR.PATCH", "cur": "1.2.3", "args": ["--patch"],
+     "git_config": [("core.quotePath", "false")]},
     {"pfile": "n[1].txt", "cfg_spelling": "docs/../n[1].txt", "ufile": "docs/notes.md", "vp": "MAJOR.MINOR.PATCH", "cur": "1.2.3",
      "args": ["--patch"], "extra_files": {"docs/keep.txt": "keep\n"}},
 ]
@@ -82,7 +87,7 @@ def cases(ctx):
             if rep > 0 and li != rep % len(LAYOUTS):
                 continue
             if rep == 0 and li in (1, 2) and ctx.quick:
-                # quick: the full product on layouts 0, 3..15; layouts 1, 2 only in thorough
+                # quick: the full product on layouts 0, 3..17; layouts 1, 2 only in thorough
                 continue
             for st in STATUSES:
                 for role in ROLES:
@@ -107,9 +112,10 @@ def cases(ctx):
                 for st in HG_STATUSES:
                     for role in ROLES:
                         for allow in (False, True):
-                            if ctx.mine(k):
-                                yield {"kind": "hg", "status": st, "role": role, "allow": allow, "rep": rep}
-                            k += 1
+                            for names in range(len(HG_NAMES)):
+                                if ctx.mine(k):
+                                    yield {"kind": "hg", "status": st, "role": role, "allow": allow, "rep": rep, "names": names}
+                                k += 1
             for st in SUB_STATUSES:
                 for allow in (False, True):
                     for ps in ("clean", " M"):
@@ -168,14 +174,21 @@ def make_status(d, rel, status, content):
     # 'A ', 'AM', '??', 'R>' are prepared before the initial commit (see run_case)
 
 
+# (pattern file, unrelated file): hg prints names verbatim - blanks at the edges and quote characters are part of the name
+HG_NAMES = [("a.txt", "other.txt"), (" notes.txt", "other.txt "), ("trail.txt ", " other.txt"), ('"q.txt"', '"other"'),
+            ("notes.txt", " notes.txt")]
+
+
 def run_hg(ctx, case):
     """Mercurial is not installed: the status text is served by the fake hg (format of `hg status -umard`:
     one status letter, a space, the path); add/commit are only recorded."""
     st, role, allow = case["status"], case["role"], case["allow"]
-    pfile, ufile = "a.txt", "other.txt"
+    pfile, ufile = HG_NAMES[case.get("names", 0)]
+    if case.get("names"):
+        ctx.count("hg_names_with_edge_blanks_or_quotes")
     cfg = ('[bumpver]\ncurrent_version = "1.2.3"\nversion_pattern = "MAJOR.MINOR.PATCH"\ncommit = true\ntag = false\n'
            'push = false\n\n[bumpver.file_patterns]\n"bumpver.toml" = [\'current_version = "{version}"\']\n'
-           '"a.txt" = ["version {version}"]\n')
+           + "'" + pfile + "'" + ' = ["version {version}"]\n')
     d = harness.new_project({"bumpver.toml": cfg, pfile: "intro\nversion 1.2.3\n", ufile: "unrelated\n"})
     fake = harness.FakeVCS(d, "hg")
     try:
@@ -195,7 +208,7 @@ def run_hg(ctx, case):
         else:
             expect = "proceed" if allow else "abort"
         ctx.count("hg_status_cases")
-        ctx.evaluated(("hg", st, role, allow, expect), sample={"status_line": f"{st} {target}", "argv": args, "expected": expect})
+        ctx.evaluated(("hg", st, role, allow, expect, case.get("names", 0)), sample={"status_line": f"{st} {target}", "argv": args, "expected": expect})
         desc = {"hg_status": f"{st} {target}", "argv": args, "expected": expect, "res": res.brief(), "vcs_calls": muts}
         changed = harness.diff_snapshots(before, after)
         if expect == "abort":
@@ -266,12 +279,23 @@ def run_case(ctx, case):
             elif st in ("R>", "RM>", "RD>"):
                 write(d, rel + ".orig", content)   # committed under another name, renamed onto `rel` later
                 late[rel] = (st, content)
+            elif st == "DR>":
+                # `rel` is committed next to an identical twin; later `rel` is dropped from the index and marked
+                # intent-to-add, the twin is deleted: git reports a rename in the WORK TREE column, `DR twin -> rel`
+                write(d, rel, content)
+                write(d, rel + ".twin", content)
+                late[rel] = (st, content)
             else:
                 write(d, rel, content)
         git(d, "add", "-A")
         git(d, "commit", "-q", "-m", "init")
         for rel, (st, content) in late.items():
-            if st in ("R>", "RM>", "RD>"):
+            if st == "DR>":
+                git(d, "rm", "-q", "--cached", rel)
+                git(d, "add", "-N", rel)
+                os.unlink(os.path.join(d, rel + ".twin"))
+                write(d, rel, content + "local edit\n")
+            elif st in ("R>", "RM>", "RD>"):
                 git(d, "mv", rel + ".orig", rel)
                 if st == "RM>":
                     write(d, rel, content + "local edit after the rename\n")
@@ -298,7 +322,7 @@ def run_case(ctx, case):
         for rel, st in ((pfile, ps), (ufile, us)):
             if st == "clean":
                 continue
-            code = {"R>": "R ", "RM>": "RM", "RD>": "RD", "sub: M": " M", "sub:M ": "M "}.get(st, st)
+            code = {"R>": "R ", "RM>": "RM", "RD>": "RD", "DR>": "DR", "sub: M": " M", "sub:M ": "M "}.get(st, st)
             hit = [ln for ln in entries if ln[:2] == code and rel in ln]
             if not hit and code == "??":
                 # git reports a directory that holds only untracked files as ONE entry: `?? src/`
@@ -337,7 +361,7 @@ def run_case(ctx, case):
             changed = harness.diff_snapshots(before, after)
             if res.exit_code == 0 or changed or n_after != n_before:
                 cls = "other:dirty_tree_not_respected"
-                if p_dirty and allow and (ps[0] == " " or ps in ("MM", "AM", "R>", "RM>", "RD>", "RM")):
+                if p_dirty and allow and (ps[0] == " " or ps in ("MM", "AM", "R>", "RM>", "RD>", "RM", "DR>")):
                     cls = "porcelain_status_column_misparsed"
                 if p_dirty and allow and any(ln.endswith('"') and pfile.split("/")[-1][:3] in ln for ln in porcelain.splitlines()):
                     cls = "quoted_path_in_status_output"
